@@ -84,10 +84,12 @@ matched by signature; a violation whose signature is not listed exits 1.
   every recorded state): `Lemmas/IRSymClosed.lean` - no symbol is left on a block that left the module and the block
   ordering lists attached blocks of the right section once per chain (C02, C05, C09); `Lemmas/IREntries.lean` - no
   block in two functions, entries are blocks of their function (C06); `Lemmas/IRExprs.lean` - symbolic expressions name
-  symbols of the module (C05). Not attempted for the CFG ("no edge at a block that left the module"): in the model, as
-  in the code, `_remove_outgoing_edges` gives a removed block that both calls and returns for the callee's function a
-  fresh return edge to a proxy; excluding that needs an invariant on edge kinds per block that the other steps would
-  have to maintain, so the clause stays with the oracle (C03, C05).
+  symbols of the module (C05). For the CFG ("no edge at a block that left the module") there are per-operation theorems only
+  (`Lemmas/IRCfgJoin.lean`: join leaves no edge on the absorbed block; remove leaves no edge into the removed block,
+  and none out of it when no return edge left it): in the model, as in the code, `_remove_outgoing_edges` gives a
+  removed block that both calls and returns for the callee's function a fresh return edge to a proxy; excluding that
+  over whole rewrites needs an invariant on edge kinds per block that every other step would have to maintain, so over
+  whole rewrites the clause stays with the oracle (C03, C05).
 * No source hook was needed: `MANIFEST.hooks` is empty, all observation points are wrapped from the harness
   (`gtirb_rewriting.rewriting.insert/delete`, the `_Streamer` / `_SymbolCreator` methods, `make_return_cache`).
 * E-modify is x86-64 only (ELF, and PE for the module-level tables); the assembler engine covers x86-64 (AT&T and
